@@ -523,4 +523,28 @@ class ConcurrentTaskSet : public TaskSetBase {
  **/
 DISPENSO_DLL_ACCESS TaskSetBase* parentTaskSet();
 
+namespace detail {
+// Runs the calling thread's share of a waiting parallel loop.  The tasks the loop has already
+// scheduled reference the caller's frame (loop state, functor, element range), so if the share
+// throws they must finish before the exception unwinds that frame.
+template <typename TaskSetT, typename F>
+inline void runCallerShare(TaskSetT& tasks, F&& share) {
+#if defined(__cpp_exceptions)
+  try {
+    share();
+  } catch (...) {
+    try {
+      tasks.wait();
+    } catch (...) {
+      // The caller's own exception takes precedence over one captured from a task.
+    }
+    throw;
+  }
+#else
+  (void)tasks;
+  share();
+#endif // __cpp_exceptions
+}
+} // namespace detail
+
 } // namespace dispenso
